@@ -49,13 +49,27 @@ def _task(args):
             undo = install.mutate(owner, fname, old, new)
             if undo is None:
                 return {'task': 'canary', 'harness': name, 'label': label, 'status': 'skipped (pattern not found)'}
+            run.FAST[0] = True
             try:
                 r = run.verify_harness(name, do_replay=False)
             finally:
+                run.FAST[0] = False
                 undo()
             ref = [o['id'] for o in r['obligations'] if o['verdict'] == 'refuted']
             killed = bool(ref) and (expect is None or any(expect in x for x in ref))
-            return {'task': 'canary', 'harness': name, 'label': label, 'status': 'killed' if killed else 'SURVIVED',
+            status = 'killed' if killed else 'SURVIVED'
+            und = [o['id'] for o in r['obligations'] if o['verdict'] == 'undecided']
+            if not killed and (und or r['error']) and h.conc:
+                # the mutant leaves obligations undecided: the bounded run-time check of the same contract must catch it
+                undo2 = install.mutate(owner, fname, old, new)
+                try:
+                    st = run.random_conc(h, 200, 7)
+                finally:
+                    if undo2:
+                        undo2()
+                if st['failures']:
+                    status, ref = 'killed (by the bounded fallback; solver left it undecided)', [f['clause'] for f in st['failures']]
+            return {'task': 'canary', 'harness': name, 'label': label, 'status': status,
                     'refuted': sorted(set(ref))[:6], 'error': r['error'], 'seconds': round(time.time() - t0, 2)}
         if kind == 'random':
             h = run.HARNESSES[name]
@@ -63,6 +77,8 @@ def _task(args):
             st.update(task='random', harness=name, seconds=round(time.time() - t0, 2))
             return st
         if kind == 'bounded':
+            from pyvc import install
+            install.uninstall()              # bounded stand-ins run the pristine library
             mod = importlib.import_module('bounded.' + name)
             r = mod.run(tier=extra['tier'], seed=extra['seed'], budget_s=extra['budget_s'], jobs=extra.get('jobs', 1))
             r.update(task='bounded', module=name, seconds=round(time.time() - t0, 2), bound=getattr(mod, 'BOUND', ''))
@@ -81,7 +97,12 @@ def load_known():
 def finding_matches(entry, prop, oid, meta):
     if entry.get('status') != 'open' or entry.get('property') != prop:
         return False
-    if entry.get('obligation') != oid:
+    pat = entry.get('obligation', '')
+    if '*' in pat:
+        import fnmatch
+        if not fnmatch.fnmatchcase(oid, pat.replace('[', '[[]')):
+            return False
+    elif pat != oid:
         return False
     w = entry.get('witness') or {}
     for k, v in w.items():
@@ -354,10 +375,13 @@ def check(prop, tier, seed, jobs):
         json.dump(evidence, f, indent=1, default=str)
     # summary on stderr-ish (stdout lines that are not VIOLATION are informational)
     print('%s tier=%s: obligations %d discharged %d | clauses %d | canaries %d killed %d survived %d | bounded modules %d | undecided %d%s | %.1fs'
-          % (prop, tier, nobs, ndis, len(clauses), len(can), sum(r['status'] == 'killed' for r in can), len(survived), len(bres),
+          % (prop, tier, nobs, ndis, len(clauses), len(can), sum(r['status'].startswith('killed') for r in can), len(survived), len(bres),
              len(undecided), ' (bounded fallback passed)' if fb_ok else '', time.time() - t0))
     for o, w in undecided[:12]:
         print('  undecided: %s: %s' % (o, w))
+    slow = sorted(((r.get('seconds', 0), r.get('task'), r.get('harness') or r.get('module'), r.get('label', '')) for r in results), reverse=True)[:3]
+    if slow and slow[0][0] > 20:
+        print('  slowest tasks: ' + '; '.join('%.0fs %s %s %s' % x for x in slow))
     for r in survived:
         print('  CANARY SURVIVED (vacuity alarm, checker error): %s / %s' % (r['harness'], r['label']))
     for c in crashes:
@@ -380,7 +404,7 @@ def _explanation(prop, hs, nobs, ndis, bres, can, undecided, fb_ok):
          '(all paths, loops cut by invariants, callees replaced by their contracts); %d obligation instances were generated from '
          '/repo\'s current source for this property and %d discharged (unsat). ' % (nobs, ndis))
     if can:
-        s += '%d in-memory canary mutants were refuted (vacuity guard). ' % sum(r['status'] == 'killed' for r in can)
+        s += '%d in-memory canary mutants were refuted (vacuity guard). ' % sum(r['status'].startswith('killed') for r in can)
     if bres:
         s += ('Bounded part (NOT counted as proved): %s. ' % '; '.join('%s: %s cases, exhaustive=%s' % (r['module'], r.get('evaluations'), r.get('exhaustive')) for r in bres))
     if undecided:
